@@ -830,7 +830,9 @@ pub fn render_program(prog: &Value, idx: usize) -> FcWorld {
       for (a, tv) in al {
         if let Some(arr) = tv.as_array().filter(|x| x.len() == 2) {
           let (t, n) = (arr[0].as_str().unwrap(), arr[1].as_str().unwrap());
-          if n == "default" {
+          if n == "*" {
+            src.push_str(&format!("import * as {a} from \"./{t}.ts\";\n"));
+          } else if n == "default" {
             src.push_str(&format!("import {a} from \"./{t}.ts\";\n"));
           } else {
             src.push_str(&format!("import {{ {n} as {a} }} from \"./{t}.ts\";\n"));
@@ -845,7 +847,8 @@ pub fn render_program(prog: &Value, idx: usize) -> FcWorld {
       let name = local(m, d);
       let mut ref_fields = String::new();
       for (i, r) in strs(&prog["refs"][m][d]).iter().enumerate() {
-        let ty = if decls.contains(r) { local(m, r) } else { r.clone() };
+        let is_ns = prog["alias"][m][r].as_array().is_some_and(|x| x.len() == 2 && x[1] == "*");
+        let ty = if decls.contains(r) { local(m, r) } else if is_ns { format!("typeof {r}") } else { r.clone() };
         ref_fields.push_str(&format!(" r{i}: {ty};"));
       }
       let mut mod_fields = String::new();
